@@ -274,7 +274,7 @@ class Arm(Robot):
         theta, success = fmr.IKinSpace(
                 self.screw_list, self._end_effector_home.gTM(),
                 goal_position.gTM(), theta_init,
-                self.pos_tolerance, self.rot_tolerance, max_iters=max_iters)
+                self.rot_tolerance, self.pos_tolerance, max_iters=max_iters)
         if not success and check:
             i = 0
             while i < level and success == 0:
@@ -284,7 +284,7 @@ class Arm(Robot):
                 theta, success = fmr.IKinSpace(
                         self.screw_list, self._end_effector_home.gTM(),
                         goal_position.gTM(), theta_temp,
-                        self.pos_tolerance, self.rot_tolerance, max_iters=max_iters)
+                        self.rot_tolerance, self.pos_tolerance, max_iters=max_iters)
                 i = i + 1
         theta = fsr.angleMod(theta)
         if success:
